@@ -85,6 +85,7 @@ type sched struct {
 	off      bool // free-run mode: Yield returns immediately
 	depth    []lockDepth // goroutines inside a mutex critical section of the library (autoyield builds)
 	autoCount, autoStride int
+	hookCount, hookStride int
 
 	// scheduler-goroutine private
 	cfg   Config
@@ -142,6 +143,17 @@ func Yield(site string, key int) {
 	s := current()
 	if s == nil {
 		return
+	}
+	if s.hookStride > 1 {
+		// very large workloads thin the hand-placed scheduling points too (knob
+		// "hook.stride"); one task runs at a time, so the counter follows the schedule
+		s.mu.lock()
+		s.hookCount++
+		skip := s.hookCount%s.hookStride != 0
+		s.mu.unlock()
+		if skip {
+			return
+		}
 	}
 	s.park(site, key, 0)
 }
@@ -440,7 +452,7 @@ func Run(t *testing.T, cfg Config, root func()) Result {
 	if stepsDir != "" {
 		cfg.KeepSteps = 1 << 30
 	}
-	s := &sched{cfg: cfg, tasks: map[uint64]int{}, autoStride: cfg.Knobs["auto.stride"]}
+	s := &sched{cfg: cfg, tasks: map[uint64]int{}, autoStride: cfg.Knobs["auto.stride"], hookStride: cfg.Knobs["hook.stride"]}
 	s.res.Sites = map[string]int{}
 	defer func() {
 		if stepsDir != "" {
